@@ -33,15 +33,21 @@ def run(ctx):
     extra = shipped_scenarios(rnd, 80 if q else 2000)
     for s in extra:
         s["fuzzy"] = True
-        s["thr"] = rnd.choice([0, -30, -60, 5, 40])
+        s["thr"] = rnd.choice([0, -30, -60, 5, 40, 1000, -110, -400])
         if s["entry"] == "cli":
             s["entry"] = "universal"
     # fragments, one-letter and punctuation-only queries on the synthetic corpus
     for raw in ["f", "fr", "zq", "x", "-", "--", "|", ".", "frob", "wdgt", "nmbr", "frobnicatewidget", "FROBNICTE", "fRoB"]:
-        for thr in (0, -30, 5):
+        for thr in (0, -30, 5, 30, 1000, -110, -300):
             for nlp in (False, True):
                 extra.append(dict(entry="universal", limit=rnd.choice([1, 5, 50]), nlp=nlp, fuzzy=True, thr=thr, ponly=False, pboost=False,
                                   allplat=rnd.random() < 0.5, plats=[], nocross=False, boost=False, query="raw", raw=raw, corpus="mix"))
+    # words the index does not know but whose NLP expansion hits it: the plain answer exists only through NLP terms
+    for nlp in (True, False):
+        for lim in (1, 5, 50):
+            for thr in (0, -30):
+                extra.append(dict(entry=rnd.choice(["universal", "cached"]), limit=lim, nlp=nlp, fuzzy=True, thr=thr, ponly=False, pboost=False,
+                                  allplat=False, plats=[], nocross=False, boost=False, query="nlpword", corpus="mix"))
     tr, info, ok, rej = engine.run_cases(ctx, scen + extra, ["C07"])
     for x in rej:
         ev = json.loads(x["trace"][x["at"] - 1])
